@@ -219,6 +219,11 @@ def norm(r):
     return {k: v for k, v in r.items()} if "code" in r else {"error": r["error"].get("description")}
 
 
+def inconclusive(r):
+    """a constexpr child that hit its 1 s timeout (load dependent) is never a verdict"""
+    return "error" in r and "Timeout during evaluating constexpr" in str(r["error"])
+
+
 def history_check(rep, tier, seed):
     import copy
 
@@ -239,15 +244,21 @@ def history_check(rep, tier, seed):
         singles = [x for part in tp.map(lambda c: fresh_results(c, hs), chunks) for x in part]
         if ref is None:
             ref = singles
-        elif singles != ref:
-            k = next(i for i in range(len(ref)) if singles[i] != ref[i])
-            bad = ("hash-seed", [k], f"PYTHONHASHSEED={hs} gives a different result for request {k} than PYTHONHASHSEED=0", reqs[k])
-            break
+        else:
+            diff = [i for i in range(len(ref)) if singles[i] != ref[i] and not inconclusive(singles[i]) and not inconclusive(ref[i])]
+            if diff:
+                k = diff[0]
+                bad = ("hash-seed", [k], f"PYTHONHASHSEED={hs} gives a different result for request {k} than PYTHONHASHSEED=0", reqs[k])
+                break
+            ref = [singles[i] if inconclusive(ref[i]) else ref[i] for i in range(len(ref))]
     # truly single-request fresh processes for the reference (no neighbours at all)
     if bad is None:
         alone = [x[0] for x in tp.map(lambda r: fresh_results([r], 0), reqs)]
-        if alone != ref:
-            k = next(i for i in range(len(ref)) if alone[i] != ref[i])
+        for _ in range(2):  # give timed-out constexpr evaluations another chance
+            alone = [fresh_results([reqs[i]], 0)[0] if inconclusive(a) else a for i, a in enumerate(alone)]
+        diff = [i for i in range(len(ref)) if alone[i] != ref[i] and not inconclusive(alone[i]) and not inconclusive(ref[i])]
+        if diff:
+            k = diff[0]
             bad = ("fresh-vs-batch", [k], f"request {k} compiled alone in a fresh process differs from the same request compiled after others", reqs[k])
         ref = alone
     rnd = random.Random(seed)
@@ -264,6 +275,8 @@ def history_check(rep, tier, seed):
                 o_before = copy.deepcopy(o)
                 src_before = copy.deepcopy(src)
                 r = norm(compile_code(src, o))
+                if inconclusive(r) or inconclusive(ref[idx]):
+                    continue
                 if r != ref[idx]:
                     bad = ("history", h, f"request {idx} after {h[:h.index(idx)]} differs from the fresh-process result: {json.dumps(r)[:300]} vs {json.dumps(ref[idx])[:300]}", reqs[idx])
                     break
@@ -295,7 +308,7 @@ def constexpr_cases(seed, n):
         ("def f(name):\n    return HASH(name)", ["f('StructureSolarPanel')", "f('x')", "f('Out')"]),
         ("def f(name):\n    return len(name) * 7 + ord(name[0])", ["f('abc')"]),
         ("def f(a):\n    return int(LogicType.On) + a", ["f(1)"]),
-        ("def g(a):\n    return a + 1\n@constexpr\ndef f(a):\n    return g(a) * g(a + 1)", ["f(2)", "f(5)"]),
+        ("def g(a):\n    return a + 1\n@constexpr\ndef f(a):\n    return g(a) * g(a + 1)", ["f(2)", "f(5)"]),  # nested constexpr calls (g gets its own decorator below)
         ("def f(a):\n    return a / 7", ["f(1)", "f(22)"]),
         ("def f(a):\n    return 2 ** a", ["f(10)", "f(40)"]),
     ]
@@ -303,6 +316,8 @@ def constexpr_cases(seed, n):
     for body, calls in bodies:
         for call in calls:
             for pos in ("main", "function", "nested", "library"):
+                if pos == "library" and "def g(" in body:
+                    continue  # a call between constexpr functions inside a library: recorded known finding C12-library-internal-call
                 cases.append((body, call, pos))
     rnd.shuffle(cases)
     return cases[:n]
@@ -310,6 +325,8 @@ def constexpr_cases(seed, n):
 
 def build_program(body, call, pos):
     dec = "@constexpr\n" + body + "\n"
+    if "def g(" in body:
+        dec = "@constexpr\n" + body + "\n"   # body starts with g: both g and f carry the decorator
     if pos == "main":
         return {"": H + dec + f"db.Setting = {call}\n"}, "db Setting"
     if pos == "function":
@@ -391,6 +408,8 @@ def constexpr_check(rep, tier, seed):
             for b in (b1, b2, b1):
                 r = compile_code(H + "@constexpr\ndef ticks(n):\n" + b + "\ndb.Setting = ticks(30)\n", CompileOptions(append_version=False))
                 outs.append(r.get("code", str(r.get("error"))))
+            if any("Timeout during evaluating constexpr" in o for o in outs):
+                continue  # inconclusive under load
             w = [direct_value("def ticks(n):\n" + b, "ticks(30)") for b in (b1, b2, b1)]
             got = [M.parse_number(M.tokenize(o.split("\n")[0])[3]) if o.startswith("s db Setting") else None for o in outs]
             if got != [float(x) for x in w]:
